@@ -188,6 +188,8 @@ def run(F, rep, rid, kinds=None):
     sites = deref_sites(F)
     seen = {}
     n = 0
+    from core import cited_rules, require_rules
+    cited = set()
     for f, src, kind, deref, var in sorted(sites, key=lambda s: (s[0].file, s[3].get('l', 0))):
         if kinds is not None and kind not in kinds:
             continue
@@ -220,9 +222,13 @@ def run(F, rep, rid, kinds=None):
             # ... nor about the names of locals and parameters at all: canonical form (single-definition locals spelled out, parameters by position)
             alt3 = '|'.join(parts[:2] + ['~' + render_canon(f, src)[:110]] + parts[3:])
             if key in inv or alt in inv or alt2 in inv or alt3 in inv:
-                rep.exempt(rid, key, inv.get(key) or inv.get(alt) or inv.get(alt2) or inv[alt3])
+                rsn = inv.get(key) or inv.get(alt) or inv.get(alt2) or inv[alt3]
+                rep.exempt(rid, key, rsn)
+                cited |= cited_rules(rsn)
             else:
                 rep.fail(rid, key, f.where(deref), '`%s` can be null (%s) and is dereferenced as `%s` without a test' % (render(src)[:50], key.split('|')[1], render(f.parent(deref) or deref)[:60]))
         else:
             rep.ok(rid, key, None, how)
+    # the gates those invariants rest on are part of this rule
+    require_rules(F, rep, cited)
     return n
